@@ -829,7 +829,7 @@ func (h *httpServerHandler) isValidPath(requestPath string) bool {
 // pendingRequestKey identifies a pending server-to-client request: the answer must come from the
 // session the request was sent to, so the session ID is part of the key.
 func pendingRequestKey(sessionID string, requestID interface{}) string {
-	return sessionID + "|" + fmt.Sprintf("%v", requestID)
+	return sessionID + "|" + requestIDKey(requestID)
 }
 
 // responseManager manages pending requests and their response channels.
